@@ -60,9 +60,12 @@ func c06Term(name string, kind int, nsyms int) Term {
 	s := make(Set, 0, n)
 	for i := 0; i < n; i++ {
 		e := c06Scalar(name+".elt", ek, nsyms)
-		// validity predicate of a set: no duplicates
-		for _, o := range s {
-			vAssume(vNot(refTermEq(e, o)))
+		// sets written without repeated elements, unless the family asks for repetitions: the parser, the
+		// builders and the decoder all let [1, 1] through, it denotes the set {1}
+		if vParamOpt("dupsets") == 0 {
+			for _, o := range s {
+				vAssume(vNot(refTermEq(e, o)))
+			}
 		}
 		s = append(s, e)
 	}
@@ -392,7 +395,9 @@ func c06CheckBinary(op BinaryOpType, l, r Term, pre, post *SymbolTable, res Term
 			good = vAnd(good, vImplies(refMember(e, b), refMember(e, out)))
 		}
 		vAssert(good, id+".value")
-		vAssert(c06NoDup(out), id+".nodup")
+		if vParamOpt("dupsets") == 0 {
+			vAssert(c06NoDup(out), id+".nodup")
+		}
 		return
 	}
 	vAssert((err != nil) == ref.isErr, id+".error")
@@ -426,7 +431,9 @@ func c06CheckBinary(op BinaryOpType, l, r Term, pre, post *SymbolTable, res Term
 	case kSet:
 		if v, ok := res.(Set); ok {
 			vAssert(vAnd(refSubset(v, ref.set), refSubset(ref.set, v)), id+".value")
-			vAssert(c06NoDup(v), id+".nodup")
+			if vParamOpt("dupsets") == 0 {
+				vAssert(c06NoDup(v), id+".nodup")
+			}
 		}
 	}
 }
@@ -441,12 +448,28 @@ func c06NoDup(s Set) bool {
 	return r
 }
 
+// refDistinct: the number of distinct elements of a set as written.
+func refDistinct(s Set) int64 {
+	var n int64
+	for i := range s {
+		seen := false
+		for j := 0; j < i; j++ {
+			seen = vOr(seen, refTermEq(s[i], s[j]))
+		}
+		n += vIteInt64(seen, 0, 1)
+	}
+	return n
+}
+
 // VerifC06Binary: one binary operator applied to two operands of any dynamic type.
 func VerifC06Binary() {
 	vForbidPanic("C06")
 	op := vChoose("op", 17)
 	lk := vChoose("lkind", nKinds)
 	rk := vChoose("rkind", nKinds)
+	if vParamOpt("dupsets") != 0 && (lk != kSet && rk != kSet) {
+		return // the family with repeated elements is about set operands
+	}
 	vLabel("op=" + c06OpNames[op] + " left=" + c06KindNames[lk] + " right=" + c06KindNames[rk])
 	syms := c06Syms(1, 2)
 	l := c06Term("l", lk, len(*syms))
@@ -509,6 +532,9 @@ func VerifC06Unary() {
 	vForbidPanic("C06")
 	op := vChoose("uop", 3)
 	k := vChoose("kind", nKinds)
+	if vParamOpt("dupsets") != 0 && k != kSet {
+		return
+	}
 	vLabel("uop=" + [...]string{"Negate", "Parens", "Length"}[op] + " operand=" + c06KindNames[k])
 	syms := c06Syms(1, 2)
 	v := c06Term("v", k, len(*syms))
@@ -545,7 +571,7 @@ func VerifC06Unary() {
 			case Bytes:
 				vAssert(n == Integer(len(x)), "C06.unary.value")
 			case Set:
-				vAssert(n == Integer(len(x)), "C06.unary.value")
+				vAssert(n == Integer(refDistinct(x)), "C06.unary.value")
 			case String:
 				s, known := refStr(syms, x)
 				if known {
@@ -633,7 +659,7 @@ func refUnary(u UnaryOpType, v Term, syms *SymbolTable) (Term, bool, bool) {
 		case Bytes:
 			return Integer(len(x)), true, false
 		case Set:
-			return Integer(len(x)), true, false
+			return Integer(refDistinct(x)), true, false
 		case String:
 			s, known := refStr(syms, x)
 			if !known {
